@@ -497,3 +497,39 @@ def inline_calls(F, fn, eligible, depth=2, _stack=(), only_bb=None):
     f2 = dict(fn)
     f2["mir"] = {**m, "blocks": blocks, "locals": locals_}
     return f2, where
+
+
+def dominating_conditions(B, site_bb):
+    """[(symbolic discriminant, chosen values | ('not', values))] of every switch that dominates site_bb and whose taken edge
+    is determined (the site is reachable through exactly one of its successors without passing the switch again)"""
+    out = []
+    dom = B.dominators()
+    for d in sorted(dom.get(site_bb, ())):
+        t = B.blocks[d]["term"]
+        if t["k"] != "switch" or d == site_bb:
+            continue
+        succs = list(dict.fromkeys(t["ts"] + [t["otherwise"]]))
+        cand = [s for s in succs if s == site_bb or site_bb in B.reachable(s, avoid=[d])]
+        if len(cand) != 1:
+            continue
+        chosen = cand[0]
+        vals = [v for v, tt in zip(t["vals"], t["ts"]) if tt == chosen]
+        sym = B.sym_op(t["d"], through_vars=True)
+        if chosen == t["otherwise"] and not vals:
+            out.append((sym, ("not", tuple(t["vals"])), t.get("dty")))
+        else:
+            out.append((sym, tuple(vals), t.get("dty")))
+    return out
+
+
+def bool_conditions(B, site_bb):
+    """{rendered boolean condition: True/False} among the conditions dominating site_bb"""
+    out = {}
+    for sym, vals, dty in dominating_conditions(B, site_bb):
+        if dty != "bool":
+            continue
+        if vals == (0,) or vals == ("not", (1,)):
+            out[show(sym)] = False
+        elif vals == (1,) or vals == ("not", (0,)):
+            out[show(sym)] = True
+    return out
